@@ -1,5 +1,30 @@
-"""In-situ monitors attached to simulated worlds (C07, C09, C15, C18, C20 oracles live here)."""
+"""In-situ monitors attached to simulated worlds.
+
+Each monitor judges per-call observations (CallRec) of the real handlers against a small model.
+They are attached by the property that owns them (C07, C09, C15, C18, C20) to every population
+that property samples, and report through world.violate(clause, locus, detail).
+"""
 from __future__ import annotations
+
+from pathlib import Path
+
+from cfdpsim.models import IntervalSet, ref_checksum
+from cfdpsim.world import ACK, UNACK, pdu_hdr, pdu_info, pdu_kind, tid_of
+
+from spacepackets.cfdp import TransactionId
+from spacepackets.cfdp.tlv import (
+    MessageToUserTlv,
+    OriginatingTransactionId,
+    ProxyPutRequest,
+    ProxyPutRequestParams,
+    ProxyPutResponse,
+    ProxyPutResponseParams,
+)
+from spacepackets.cfdp.lv import CfdpLv
+from spacepackets.cfdp.pdu.finished import FinishedParams
+from spacepackets.cfdp import ConditionCode
+from spacepackets.cfdp.defs import DeliveryCode, FileStatus
+from spacepackets.util import ByteFieldU8, ByteFieldU16
 
 
 class Monitor:
@@ -8,6 +33,479 @@ class Monitor:
 
     def on_end(self, w) -> None:
         pass
+
+
+# ---------------------------------------------------------------------------------------------
+# message-to-user variants (C15)
+
+
+def build_msgs(variant: int):
+    """Returns (msgs_to_user list or None, expected originating id tuple or None)."""
+    if variant == 0:
+        return None, None
+    plain = MessageToUserTlv(b"hello user")
+    oid = TransactionId(ByteFieldU16(5), ByteFieldU16(77))
+    oid_msg = OriginatingTransactionId(oid).to_generic_msg_to_user_tlv()
+    if variant == 1:
+        return [plain], None
+    if variant == 2:
+        return [oid_msg, plain], (5, 77)
+    if variant == 3:
+        resp = ProxyPutResponse(
+            ProxyPutResponseParams.from_finished_params(
+                FinishedParams(ConditionCode.NO_ERROR, DeliveryCode.DATA_COMPLETE, FileStatus.FILE_RETAINED)
+            )
+        ).to_generic_msg_to_user_tlv()
+        return [resp, oid_msg], None
+    req = ProxyPutRequest(
+        ProxyPutRequestParams(ByteFieldU8(9), CfdpLv.from_str("x/src.bin"), CfdpLv.from_str("x/dst.bin"))
+    ).to_generic_msg_to_user_tlv()
+    return [req, plain], None
+
+
+# ---------------------------------------------------------------------------------------------
+# C07: sender stream model
+
+
+class SenderStream(Monitor):
+    """Judges everything entity a's source handler emits for the run's put request."""
+
+    P = "C07"
+
+    def __init__(self, w, expect_complete_on_idle: bool = True):
+        c = w.cfg
+        self.size = len(w.src_bytes)
+        self.data = w.src_bytes
+        self.seg = c.eff_seg
+        self.next = 0  # next original tile offset
+        self.first = True
+        self.tid = None
+        self.hdr = None
+        self.md_raw = None
+        self.eof_seen = False
+        self.cancel_eof = False
+        self.cancelled = False
+        self.tiles = 0
+
+    def note_cancel(self):
+        self.cancelled = True
+
+    def on_call(self, w, rec) -> None:
+        if rec.ent != "a" or rec.hk != "src":
+            return
+        c = w.cfg
+        nak_in = rec.inb_kind == "NAK"
+        n_fd = 0
+        for em in rec.emitted:
+            if em.pdu is None:
+                w.violate("C07.parsable", f"kind=?? len={len(em.raw)}", em.raw.hex()[:60])
+                continue
+            pdu = em.pdu
+            k = em.kind
+            h = pdu_hdr(pdu)
+            # header clauses
+            if self.tid is None:
+                self.tid = tid_of(pdu)
+                self.hdr = h
+            if tid_of(pdu) != self.tid:
+                w.violate("C07.same_tid", f"{k}", f"{tid_of(pdu)} vs {self.tid}")
+            if h[3][1] != h[4][1]:
+                w.violate("C07.id_width", f"{k} src={h[3][1]} dst={h[4][1]}", "")
+            if h[1] != int(c.mode):
+                w.violate("C07.mode", f"{k} mode={h[1]}", "")
+            if h[2] != int(c.crc):
+                w.violate("C07.crc_flag", f"{k} crc={h[2]} want={int(c.crc)}", "")
+            if h[0] != 0:  # everything the file sender emits travels towards the receiver
+                w.violate("C07.direction", f"{k} dir={h[0]}", "")
+            if h[5][1] != c.seqw:
+                w.violate("C07.seq_width", f"{k} {h[5][1]} want={c.seqw}", "")
+            try:
+                again = bytes(pdu.pack())
+            except Exception as e:  # noqa: BLE001
+                again = None
+                w.violate("C07.roundtrip", f"{k} repack {type(e).__name__}", "")
+            if again is not None and again != em.raw:
+                w.violate("C07.roundtrip", f"{k}", f"{em.raw.hex()[:40]} vs {again.hex()[:40]}")
+            if k in ("FD", "EOF", "ACK") and len(em.raw) > c.mpl:
+                w.violate("C07.max_packet_len", f"{k} len={len(em.raw)} mpl={c.mpl}", "")
+            if em.obj_len != len(em.raw):
+                w.violate("C07.packet_len_property", f"{k} {em.obj_len} vs {len(em.raw)}", "")
+            # stream clauses
+            if self.first:
+                self.first = False
+                if k != "MD":
+                    w.violate("C07.first_is_metadata", f"first={k}", "")
+            if k == "MD":
+                inf = em.info
+                if c.metadata_only:
+                    if inf[5] != c.closure:
+                        w.violate("C07.metadata_fields", f"md_only closure={inf[5]}", "")
+                else:
+                    want = ("MD", self.size, w.src_path, w.dst_req, int(c.ck), c.closure)
+                    if inf[:6] != want:
+                        w.violate("C07.metadata_fields", _diff(inf[:6], want), f"{inf} vs {want}")
+                if self.md_raw is None:
+                    self.md_raw = em.raw
+                elif em.raw != self.md_raw:
+                    w.violate("C07.metadata_resend_identical", "", "")
+            elif k == "FD":
+                off, ln = em.info[1], em.info[2]
+                body = bytes(pdu.file_data)
+                if ln > self.seg:
+                    w.violate("C07.segment_len", f"len={ln} seg={self.seg}", f"off={off}")
+                if off + ln > self.size or body != self.data[off : off + ln]:
+                    w.violate("C07.file_bytes", f"off+len>size={off + ln > self.size}", f"off={off} len={ln}")
+                if nak_in:
+                    continue  # retransmission: judged by C08; here only the generic clauses
+                n_fd += 1
+                if self.eof_seen or self.cancelled:
+                    # after EOF (or cancel) nothing original may follow
+                    if off >= self.next and not nak_in:
+                        w.violate("C07.no_data_after_eof", f"off={off} next={self.next}", "")
+                    continue
+                if off != self.next:
+                    if off < self.next:
+                        # a retransmission emitted in a later call than the NAK (not how the source
+                        # works today; tolerated: it is inside what was sent)
+                        w.probe("C07.late_retransmission")
+                        continue
+                    w.violate("C07.tiling", f"off={off} expected={self.next}", "")
+                want_len = min(self.seg, self.size - off)
+                if ln != want_len:
+                    w.violate("C07.tiling", f"len={ln} want={want_len}", f"off={off}")
+                self.next = off + ln
+                self.tiles += 1
+            elif k == "EOF":
+                cond = em.info[1]
+                if cond == 0:
+                    if self.next != self.size and not c.metadata_only:
+                        w.violate("C07.eof_after_all_data", f"next={self.next} size={self.size}", "")
+                    if em.info[2] != self.size:
+                        w.violate("C07.eof_size", f"eof={em.info[2]} size={self.size}", "")
+                    if em.info[3] != ref_checksum(int(c.ck), self.data).hex():
+                        w.violate("C07.eof_checksum", f"ck={c.ck.name}", f"{em.info[3]}")
+                    self.eof_seen = True
+                else:
+                    self.cancel_eof = True
+        if n_fd > 1:
+            w.violate("C07.one_fd_per_call", f"n={n_fd}", "")
+
+    def on_end(self, w) -> None:
+        if self.eof_seen and self.next != self.size:
+            w.violate("C07.complete", f"next={self.next} size={self.size}", "")
+
+
+def _diff(a, b) -> str:
+    names = ("kind", "size", "src_name", "dst_name", "ck", "closure")
+    return ",".join(n for n, x, y in zip(names, a, b) if x != y)
+
+
+# ---------------------------------------------------------------------------------------------
+# C09: checksums as they occur in transfers
+
+
+class ChecksumMonitor(Monitor):
+    def __init__(self, w):
+        self.eof_ck = None
+        self.eof_size = None
+        w.user_hooks_b.append(self._hook_b)
+        self.w = w
+
+    def on_call(self, w, rec) -> None:
+        c = w.cfg
+        if rec.ent == "a" and rec.hk == "src":
+            for em in rec.emitted:
+                if em.kind == "EOF" and em.pdu is not None:
+                    size = em.info[2]
+                    cond = em.info[1]
+                    if size > len(w.src_bytes):
+                        w.violate("C09.eof_size_in_file", f"cond={cond} size={size}>{len(w.src_bytes)}", "")
+                        continue
+                    want = ref_checksum(int(c.ck), w.src_bytes[:size]).hex()
+                    w.probe("C09.eof_checked")
+                    if size < len(w.src_bytes):
+                        w.probe("C09.eof_prefix_checked")
+                    if em.info[3] != want:
+                        w.violate(
+                            "C09.eof_checksum",
+                            f"ck={c.ck.name} cond={'cancel' if cond else 'noerr'} prefix={size < len(w.src_bytes)} "
+                            f"resend={rec.inb is None and rec.pre.step == 'WAITING_FOR_EOF_ACK'}",
+                            f"size={size} got={em.info[3]} want={want}",
+                        )
+        if rec.ent == "b" and rec.hk == "dst" and rec.inb_kind == "EOF" and rec.exc is None:
+            self.eof_ck = rec.inb_info[3]
+            self.eof_size = rec.inb_info[2]
+
+    def _hook_b(self, ent, item) -> None:
+        """Destination user callback, executed at the moment of the indication."""
+        w = self.w
+        c = w.cfg
+        if item[0] != "finished" or c.metadata_only:
+            return
+        cond, deliv, status = item[2]
+        if self.eof_ck is None or int(c.ck) == 15:
+            return
+        got = w.dst_bytes()
+        if deliv == 0 and cond == 0 and got is not None:
+            w.probe("C09.completion_checked")
+            have = ref_checksum(int(c.ck), got[: self.eof_size]).hex()
+            if have != self.eof_ck:
+                w.violate("C09.complete_implies_checksum", f"ck={c.ck.name}", f"{have} vs eof {self.eof_ck}")
+            # the user verifies the delivered file through the filestore API
+            vfs = w.vfs_b_inner
+            try:
+                ok = vfs.verify_checksum(bytes.fromhex(self.eof_ck), c.ck, Path(w.dst_path), self.eof_size)
+                bad = bytearray(bytes.fromhex(self.eof_ck))
+                bad[3] ^= 1
+                nok = vfs.verify_checksum(bytes(bad), c.ck, Path(w.dst_path), self.eof_size)
+            except Exception as e:  # noqa: BLE001
+                w.violate("C09.verify_raises", f"{type(e).__name__} ck={c.ck.name}", str(e)[:80])
+                return
+            w.probe("C09.verify_checked")
+            if ok is not True or nok is not False:
+                w.violate("C09.verify_checksum", f"ck={c.ck.name} ok={ok} nok={nok} vfs={c.vfs}", "")
+
+
+# ---------------------------------------------------------------------------------------------
+# C15: indications
+
+
+RECV_STEPS = ("RECEIVING_FILE_DATA", "RECV_FILE_DATA_WITH_CHECK_LIMIT_HANDLING", "WAITING_FOR_MISSING_DATA")
+
+
+class IndicationMonitor(Monitor):
+    def __init__(self, w, strict_order: bool = False, msgs_expect_oid=None, msgs=None):
+        self.strict = strict_order
+        self.oid = msgs_expect_oid
+        self.msgs = msgs
+        self.order = {"a": [], "b": []}
+        self.eof_emitted = False
+        self.put_ok_pending = False
+        self.fin_emitted_b = False
+        self.fin_accepted_a = None
+        self.last_fin_ind_b = None
+        self.md_pdu_msgs = None
+
+    def on_call(self, w, rec) -> None:
+        c = w.cfg
+        bits = c.ind_a if rec.ent == "a" else c.ind_b
+        names = [i[0] for i in rec.inds]
+        for i in rec.inds:
+            self.order[rec.ent].append(i[0])
+        # --- gating
+        for nm, bit in (("eof_sent", 1), ("eof_recv", 2), ("file_segment_recv", 4), ("finished", 8)):
+            if nm in names and not bits & bit:
+                w.violate("C15.disabled_delivered", f"{rec.ent}.{rec.hk} {nm}", "")
+        # --- transaction id of every indication = id of the PDUs of that transaction
+        want_tid = rec.post.tid or rec.pre.tid
+        for i in rec.inds:
+            if i[1] is None:
+                w.violate("C15.tid_none", f"{rec.ent}.{rec.hk} {i[0]}", "")
+            elif want_tid is not None and i[1] != want_tid and rec.inb is None:
+                w.violate("C15.tid", f"{rec.ent}.{rec.hk} {i[0]}", f"{i[1]} vs {want_tid}")
+            elif rec.inb is not None and i[0] in ("metadata_recv", "file_segment_recv", "eof_recv") and i[1] != tid_of(rec.inb):
+                w.violate("C15.tid", f"{rec.ent}.{rec.hk} {i[0]}", f"{i[1]} vs pdu {tid_of(rec.inb)}")
+        if rec.hk == "src":
+            self._sender(w, rec, names, bits)
+        else:
+            self._receiver(w, rec, names, bits)
+
+    def _sender(self, w, rec, names, bits):
+        if rec.op == "put":
+            if rec.ret is True and rec.exc is None:
+                self.put_ok_pending = True
+            return
+        if rec.op != "sm":
+            return
+        eofs = [e for e in rec.emitted if e.kind == "EOF"]
+        # no indication without its event
+        if "eof_sent" in names and not eofs:
+            w.violate("C15.no_event", f"a.src eof_sent without EOF emission", "")
+        if names.count("eof_sent") > len(eofs):
+            w.violate("C15.no_event", f"a.src eof_sent x{names.count('eof_sent')} for {len(eofs)} EOF", "")
+        if "transaction" in names:
+            if not self.put_ok_pending:
+                w.violate("C15.no_event", "a.src transaction without accepted put", "")
+            ti = [i for i in rec.inds if i[0] == "transaction"][0]
+            if ti[2] != self.oid:
+                w.violate("C15.originating_id", f"got={ti[2]} want={self.oid} msgs={w.cfg.msgs}", "")
+        # no event without its indication
+        if self.put_ok_pending and rec.exc is None:
+            if "transaction" not in names:
+                w.violate("C15.missing", "a.src transaction (first call after accepted put)", "")
+            self.put_ok_pending = False
+        if eofs and not self.eof_emitted:
+            self.eof_emitted = True
+            if bits & 1 and "eof_sent" not in names:
+                w.violate("C15.missing", "a.src eof_sent at first EOF emission", "")
+        if rec.inb_kind == "FIN" and rec.exc is None and rec.pre.step == "WAITING_FOR_FINISHED":
+            self.fin_accepted_a = rec.inb_info
+        if "finished" in names:
+            fi = [i for i in rec.inds if i[0] == "finished"][0]
+            if self.fin_accepted_a is not None:
+                want = tuple(self.fin_accepted_a[1:4])
+                if fi[2] != want:
+                    w.violate("C15.finished_params_sender", f"ind={fi[2]} fin_pdu={want}", "")
+
+    def _receiver(self, w, rec, names, bits):
+        if rec.op != "sm":
+            return
+        k = rec.inb_kind
+        # no indication without its event, parameters match
+        for i in rec.inds:
+            if i[0] == "metadata_recv":
+                if k != "MD":
+                    w.violate("C15.no_event", f"b.dst metadata_recv on {k}", "")
+                else:
+                    md = rec.inb
+                    fs = None if md.source_file_name is None else md.file_size
+                    opts = md.options_as_tlv() or []
+                    msgs = tuple(bytes(o.pack()) for o in opts if int(o.tlv_type) == 2)
+                    want = (md.source_entity_id.value, fs, md.source_file_name, md.dest_file_name, msgs if md.options_as_tlv() is not None else None)
+                    got = i[2]
+                    if got[:4] != want[:4]:
+                        w.violate("C15.metadata_params", _mdiff(got, want), f"{got} vs {want}")
+                    gm = got[4] or ()
+                    wm = want[4] or ()
+                    if tuple(gm) != tuple(wm):
+                        w.violate("C15.metadata_msgs", f"n={len(gm)} want={len(wm)}", "")
+            elif i[0] == "file_segment_recv":
+                if k != "FD":
+                    w.violate("C15.no_event", f"b.dst file_segment_recv on {k}", "")
+                elif i[2] != (rec.inb_info[1], rec.inb_info[2]):
+                    w.violate("C15.segment_params", "", f"{i[2]} vs pdu {rec.inb_info[1:3]}")
+            elif i[0] == "eof_recv":
+                if k != "EOF":
+                    w.violate("C15.no_event", f"b.dst eof_recv on {k}", "")
+        # no event without its indication (only unambiguous events)
+        if rec.exc is None:
+            if k == "FD" and rec.pre.step in RECV_STEPS and bits & 4 and "file_segment_recv" not in names:
+                w.violate("C15.missing", f"b.dst file_segment_recv step={rec.pre.step}", "")
+            if k == "EOF" and rec.pre.step == "RECEIVING_FILE_DATA" and bits & 2 and "eof_recv" not in names:
+                w.violate("C15.missing", "b.dst eof_recv", "")
+            if k == "MD" and rec.pre.step == "IDLE" and "metadata_recv" not in names:
+                w.violate("C15.missing", "b.dst metadata_recv", "")
+        fins = [e for e in rec.emitted if e.kind == "FIN" and e.pdu is not None]
+        if "finished" in names:
+            fi = [i for i in rec.inds if i[0] == "finished"][0]
+            self.last_fin_ind_b = fi
+            if fins:
+                want = tuple(fins[0].info[1:4])
+                if fi[2] != want:
+                    w.violate("C15.finished_params_receiver", f"ind={fi[2]} fin_pdu={want}", "")
+                if fi[3] != fins[0].info[4]:
+                    w.violate("C15.finished_fault_location", f"ind={fi[3]} fin_pdu={fins[0].info[4]}", "")
+        if fins and not self.fin_emitted_b:
+            self.fin_emitted_b = True
+            if bits & 8 and "finished" not in names and rec.exc is None:
+                w.violate("C15.missing", "b.dst finished at first Finished PDU emission", "")
+
+    def on_end(self, w) -> None:
+        if not self.strict:
+            return
+        rank_a = {"transaction": 0, "eof_sent": 1, "finished": 2}
+        rank_b = {"metadata_recv": 0, "file_segment_recv": 1, "eof_recv": 2, "finished": 3}
+        for ent, rank in (("a", rank_a), ("b", rank_b)):
+            last = -1
+            for nm in self.order[ent]:
+                r = rank.get(nm)
+                if r is None:
+                    continue
+                if r < last:
+                    w.violate("C15.order", f"{ent}: {nm} after rank {last}", ",".join(self.order[ent])[:120])
+                    break
+                last = r
+
+
+def _mdiff(a, b) -> str:
+    names = ("source_id", "file_size", "src_name", "dst_name")
+    return ",".join(n for n, x, y in zip(names, a, b) if x != y)
+
+
+# ---------------------------------------------------------------------------------------------
+# C20: routing agrees with admission
+
+ROUTING_TABLE = {
+    "FD": "dst", "MD": "dst", "EOF": "dst", "PROMPT": "dst", "ACK5": "dst",
+    "FIN": "src", "NAK": "src", "KA": "src", "ACK4": "src",
+}
+OTHER_SIDE_EXC = ("InvalidPduForSourceHandler", "InvalidPduForDestHandler")
+
+
+def route_key(pdu) -> str:
+    k = pdu_kind(pdu)
+    if k == "ACK":
+        return "ACK" + str(int(pdu.directive_code_of_acked_pdu))
+    return k
+
+
+class RoutingMonitor(Monitor):
+    def __init__(self, w):
+        self.cells = set()
+
+    def on_route(self, w, ent, pdu, hk) -> None:
+        key = route_key(pdu)
+        want = ROUTING_TABLE.get(key)
+        h = pdu_hdr(pdu)
+        self.cells.add((key, h[0], h[1], h[2], h[3][1]))
+        w.probe("C20.routed")
+        if want is not None and hk != want:
+            w.violate("C20.routing_table", f"{key} -> {hk} want {want}", "")
+
+    def on_call(self, w, rec) -> None:
+        if rec.inb is None:
+            return
+        if "MISROUTE" in rec.tags:
+            w.probe("C20.misroute")
+            if rec.exc is None:
+                w.violate("C20.misroute_refused", f"{route_key(rec.inb)} -> {rec.hk} accepted step={rec.pre.step}", "")
+            elif not rec.exc.is_lib:
+                w.violate("C20.misroute_refused_lib", f"{route_key(rec.inb)} -> {rec.hk} {rec.exc!r}", rec.exc.msg)
+            if rec.pre.key() != rec.post.key() or rec.emitted:
+                w.violate("C20.misroute_state", f"{route_key(rec.inb)} -> {rec.hk} step={rec.pre.step}", "")
+        elif rec.exc is not None and rec.exc.cls in OTHER_SIDE_EXC:
+            w.violate("C20.routed_but_refused", f"{route_key(rec.inb)} -> {rec.hk} {rec.exc.cls}", "")
+
+    def on_inactive_ack(self, w, eof, ack) -> None:
+        w.probe("C20.inactive_ack")
+        inf = pdu_info(ack)
+        if inf[1] != 4 or inf[2] != int(eof.condition_code) or inf[3] != 2 or int(ack.pdu_header.direction) != 1:
+            w.violate("C20.inactive_ack", f"{inf} dir={int(ack.pdu_header.direction)}", "")
+        if tid_of(ack) != tid_of(eof):
+            w.violate("C20.inactive_ack_tid", "", "")
+
+
+# ---------------------------------------------------------------------------------------------
+# C10 (in situ part): only protocol exceptions; admission rejections leave state unchanged
+
+ADMISSION = (
+    "InvalidPduDirection", "InvalidDestinationId", "InvalidSourceId", "InvalidTransactionSeqNum",
+    "InvalidPduForSourceHandler", "InvalidPduForDestHandler", "PduIgnoredForSource", "PduIgnoredForDest",
+    "NoRemoteEntityCfgFound",
+)
+
+
+class ExceptionMonitor(Monitor):
+    def __init__(self, w, judge_admission=True):
+        self.adm = judge_admission
+
+    def on_call(self, w, rec) -> None:
+        e = rec.exc
+        if e is None:
+            return
+        if not e.is_lib:
+            w.violate("C10.internal_error", f"{e.cls}@{e.func} {rec.ent}.{rec.hk} op={rec.op} in={rec.inb_kind} step={rec.pre.step}", e.msg)
+            return
+        if e.cls == "UnretrievedPdusToBeSent" and rec.qlen_entry == 0:
+            w.violate("C10.unretrieved_with_empty_queue", f"{rec.ent}.{rec.hk} op={rec.op} in={rec.inb_kind} step={rec.pre.step}@{e.func}", "")
+        if self.adm and e.cls in ADMISSION and rec.op == "sm" and rec.inb is not None:
+            w.probe("C10.admission_reject")
+            if rec.pre.key() != rec.post.key() or rec.emitted or rec.inds or rec.faults:
+                w.violate(
+                    "C10.reject_changes_state",
+                    f"{e.cls} {rec.ent}.{rec.hk} in={rec.inb_kind} step={rec.pre.step}->{rec.post.step} emitted={len(rec.emitted)}",
+                    f"{rec.pre.key()} -> {rec.post.key()}",
+                )
 
 
 def standard_monitors(w, strict_order: bool = False) -> list:
